@@ -85,7 +85,7 @@ CLAIMED["C19"] = {
 
 CLAIMED["C03"] = {
     "text": "Lean theorems: the variable walker (a stack machine mirroring Variables::next, incl. the UnaryOpt push order) reports a variable iff it occurs at SOME syntactic position (every operand, every argument index of every arity class, condition sides, branches, assert message, parentheses; any depth); the cycle-stack DFS shared by the assignment and recipe resolvers is sound for every graph: whatever it accepts is a duplicate-free topological order of known nodes, hence accepted assignments have a rank under which every variable at every position is a constant or a defined variable of smaller rank (no undefined name, no self or mutual reference) and accepted recipes have existing dependencies and a strictly decreasing rank along prior and subsequent edges (C01's Acyclic); defaults see only earlier parameters, dependency arguments and interpolations all of them; a wrong call (unknown function or arity outside its class, over the table REGENERATED from src/function.rs) at any position is rejected; README functions are in the regenerated table with their documented class; the resolver checks exactly the lines the evaluator evaluates (repaired by a fix: commit; the old gap is a proved witness). Correspondence against the binary: undefined name injected in 10 contexts x 36 constructor positions, all 3-node digraphs as variable and recipe graphs, dependency and function arity tables, duplicates, ignore-comments corners, random valid programs; every recipe is also RUN (rejected => nothing ran, accepted => no internal error).",
-    "note": "Trusted: Lean kernel; Analyzer/Dfs models (tied by the differential run and the regenerated table); error messages mapped to (kind, offender) by pattern; duplicate detection compared behaviourally only. The DFS fuel bound (number of nodes + 1) is not proved sufficient; the driver would report a fuel error.",
+    "note": "Trusted: Lean kernel; Analyzer/Dfs models (tied by the differential run and the regenerated table); error messages mapped to (kind, offender) by pattern; duplicate detection compared behaviourally only. The DFS fuel (number of nodes + 1) is proved never to be exhausted (resolveAssignments_no_fuel / resolveRecipes_no_fuel: the stack of nodes in progress has no repetition).",
     "technique": "Lean 4 proof (fun_induction on the walker, invariant proof of the DFS, mutual structural induction) + defect-injection differential against the binary + regenerated table",
     "design": "4/C03",
 }
@@ -127,7 +127,7 @@ CLAIMED["C12"] = {
 
 CLAIMED["C11"] = {
     "text": "PARTIAL proof. Lean theorems over the lexer port (the component the property's assert/internal_error anchors live in): lexer_no_internal_error - for EVERY text tokenize returns tokens or an ordinary diagnostic: no internal_error site is reachable (advance past end, presume, Lexer::error fallback, invalid string start, empty interpolation stack, non-delimiter), by Hoare-style reasoning over the model (every advance/presume guarded by what the dispatch looked at, string scanner keeps `lexeme starts with its delimiter`, body scanner stops on text that is still there, advance_n within the leading white space); NONE of the lexer's four assert_eq!s can fail on any text (lex_dedent's current_token_length()==0 and the three at the end of tokenize), proved through loop invariants - idle at every loop head, indentation stack = empty string under non-empty strings, no text left at loop exit - lifted through all lexing functions by four small calculi (ends-idle, keeps-idle, keeps-stack, not-an-assert-error); byte-offset slicing never leaves the text at the three sites the property names: Token::lexeme (every token's slice is a run of whole characters of the source), unindent (the common indentation is a prefix of every line that is sliced and consists of spaces/tabs only - model of src/unindent.rs tied by an exhaustive differential), run_linewise's sigil strip (the stripped bytes are the leading @/- of the evaluated text); the main loop of Lexer::tokenize terminates on EVERY text - each round that continues consumes at least one character in normal, body and interpolation mode, for every lexer state, so the model's fuel (length+1) is never exhausted; no lexing function un-reads text; the diagnostic printer's `invalid line number` internal error is unreachable for every lexer error. The model turns each assert_eq!/internal_error site into an explicit Internal result, so sources on which the model says Internal are predicted crashes (this is how the backslash-at-EOF panic was found and fixed). Everything else is enumeration, not proof: in-process lex+compile (parse, analyze, dump, format) under catch_unwind of ~40k (quick) / ~500k (thorough) enumerated, random and mutated sources compared with the model; unindent on all strings <=7 (8) over a whitespace alphabet incl. form feed/NBSP; 31 constructs nested or chained 256/1000/30000(/100000) times; ~1900 command lines over 45 option templates x 43 hostile operands; all 73 built-in functions with hostile arguments; every parameter-list shape of length <=3 x 0..3 arguments x direct/dependency calls; 29 recipe-line shapes (sigils, shebangs, continuations) x 4 attribute/setting contexts.",
-    "note": "Partial: theorems cover the lexer only (termination, progress, no invalid-line internal error); theorems cover the lexer completely (total, no internal error, no assertion failure, located errors); parser/analyzer/evaluator/CLI totality is decided by enumeration. Parser/analyzer/evaluator/CLI totality is decided by enumeration (testing). Known findings (recorded, not repaired): stack overflow on long +, /, &&, else-if chains and on long variable / recipe dependency chains; `#!` with empty interpreter reports an internal error. Fixed: backslash at EOF panic (lexer), --show ' ' panic, datetime(\"%Q\") panic, --timestamp-format panic.",
+    "note": "Partial: theorems cover the lexer completely (total, no internal error, no assertion failure, located errors) and the three byte-slicing sites; parser/analyzer/evaluator/CLI totality is decided by enumeration (testing). Known findings (recorded, not repaired): stack overflow on long +, /, &&, else-if chains and on long variable / recipe dependency chains; `#!` with empty interpreter reports an internal error. Fixed: backslash at EOF panic (lexer), --show ' ' panic, datetime(\"%Q\") panic, --timestamp-format panic.",
     "technique": "Lean 4 proof (termination by a strict-consumption calculus over the lexer model) + in-process and process-level enumeration for the unmodelled parts",
     "design": "4/C11",
 }
